@@ -276,6 +276,13 @@ func closeOracle(c *Case, r *Result) []Violation {
 	if !panicked && (!r.ServeReturned || r.ServeErr != "") && !r.CloseBlocked {
 		add("serve-return", "serve-return", fmt.Sprintf("Serve returned=%v err=%q after Close", r.ServeReturned, r.ServeErr))
 	}
+	// ... and it returns because Close stopped the accept loop, not because the
+	// last client went away: when a Close call has returned and nothing can run
+	// any more, Serve has returned too - whatever connections are still open
+	// and idle (judged before the teardown releases them)
+	if !panicked && len(rets) > 0 && !r.CloseBlocked && r.Outcome == RunIdle && r.HoldsForced == 0 && !r.ServeDoneBeforeTeardown {
+		add("serve-still-running-after-close", "serve-still-running-after-close", "a Close call has returned and every task is finished or waiting for its client, yet Serve has not returned (it returns only once the remaining connections are gone)")
+	}
 	return viol
 }
 
@@ -381,7 +388,7 @@ func checkC16(x *Exec, c *Case) ([]Violation, bool) {
 func init() {
 	register(&Prop{
 		ID: "C16", Level: "exploration", QuickS: 30, ThoroughS: 480, Race: true,
-		Rule: "seeded shutdown scenarios under the seeded scheduler: 1-3 connections steered into the states idle-in-Read / half a message delivered / about to start a handler / inside a handler (statement functions with scripted yield points), plus 1-3 goroutines calling Close() once or twice; schedule points at every transport operation, callback entry and row write, at the hand-placed hooks (close.enter/decided/signalled/wait, cmd.before-admission/admitted/done) and in front of every atomic, WaitGroup, channel and mutex operation of the library (spliced by cmd/instrument, so the windows between closing.Load, closing.Store, close(closer), wg.Add and wg.Wait are all steerable); strategies: uniform, PCT (depth 1-3) and, per case, 6 hold-until plans drawn over the schedule points discovered in the first run (park a connection at p until a Close caller has passed q, the reverse, and one Close caller against another); in a fifth of the scenarios one peer stalls (from some write on it never reads again: the server's write blocks for good); oracle: event-order monitor over global sequence numbers (no Close-caller panic, no handler/parser interval straddling a Close return, no handler start after the first Close return, every Close returns once handlers may finish, Serve returns nil), process survival, and the -race shard with the HB-transparent scheduler; authenticating servers with peers that go silent at or inside the password message; scenario CloseFirst (one Close returns before Serve is called: Serve must return, no handler may run); servers with two listeners (Serve called twice); handlers that stay busy for 0.1 s - 1 h of simulated time; query texts of two or three statements; complete but malformed messages of admitted types; a listener whose Close reports an error; statement functions that panic inside an extended-protocol Execute; a listener whose Accept fails (not net.ErrClosed) before Close is called; non-trivial = a handler or parser event fell between the call and the return of some Close; distinct = distinct case content hashes; distinct_interleavings = distinct (task, point) decision sequences",
+		Rule: "seeded shutdown scenarios under the seeded scheduler: 1-3 connections steered into the states idle-in-Read / half a message delivered / about to start a handler / inside a handler (statement functions with scripted yield points), plus 1-3 goroutines calling Close() once or twice; schedule points at every transport operation, callback entry and row write, at the hand-placed hooks (close.enter/decided/signalled/wait, cmd.before-admission/admitted/done) and in front of every atomic, WaitGroup, channel and mutex operation of the library (spliced by cmd/instrument, so the windows between closing.Load, closing.Store, close(closer), wg.Add and wg.Wait are all steerable); strategies: uniform, PCT (depth 1-3) and, per case, 6 hold-until plans drawn over the schedule points discovered in the first run (park a connection at p until a Close caller has passed q, the reverse, and one Close caller against another); in a fifth of the scenarios one peer stalls (from some write on it never reads again: the server's write blocks for good); oracle: event-order monitor over global sequence numbers (no Close-caller panic, no handler/parser interval straddling a Close return, no handler start after the first Close return, every Close returns once handlers may finish, Serve returns nil - and has returned by the time a Close call is back and nothing can run any more, whatever idle connections remain), process survival, and the -race shard with the HB-transparent scheduler; authenticating servers with peers that go silent at or inside the password message; scenario CloseFirst (one Close returns before Serve is called: Serve must return, no handler may run); servers with two listeners (Serve called twice); handlers that stay busy for 0.1 s - 1 h of simulated time; query texts of two or three statements; complete but malformed messages of admitted types; a listener whose Close reports an error; statement functions that panic inside an extended-protocol Execute; a listener whose Accept fails (not net.ErrClosed) before Close is called; non-trivial = a handler or parser event fell between the call and the return of some Close; distinct = distinct case content hashes; distinct_interleavings = distinct (task, point) decision sequences",
 		Components: []string{
 			"real: Serve accept loop and closer goroutine, Close, per-command admission (closing/wg/closer), command loop, handlers, buffer reader/writer",
 			"stub: listener/connections (simulated), Close callers (harness goroutines), handler programs; scheduler: harness/kernel.go decides which goroutine runs at every schedule point",
